@@ -309,6 +309,14 @@ inductive Op where
   | splitsAdmin (sender : Addr) (new : Option Addr)
   /-- sg-splits `Distribute { denom_list }` with `funds` attached; `order` = witness for `query_all_balances` -/
   | distribute (sender : Addr) (funds : List Coin) (denoms : Option (List Denom)) (order : List Denom)
+  /-- any OTHER execute message sent to the splits contract with `funds` attached: `ExecuteMsg` has exactly the two
+  variants above, so raw JSON naming anything else (`withdraw`, `burn`, `update_group`, …) is refused at parsing and
+  the attached funds never move. (The harness sends such JSON — and every variant it finds in the crate's schema
+  at run time that has no named op here — under the same monitors, so that a message added to the code shows up as
+  a difference / a monitor finding instead of a harness that no longer compiles.) -/
+  | raw (sender : Addr) (funds : List Coin)
+  /-- `migrate` of the splits contract: cw2 version bookkeeping only, no state of the model changes -/
+  | migrate (sender : Addr)
 deriving Repr
 
 /-- the `Distribute` transaction: attached funds arrive, the contract computes its messages, the bank executes them -/
@@ -349,6 +357,8 @@ def step (s : State) : Op → Except Err State
     match distribute s sender funds denoms order with
     | .error e => .error e
     | .ok (s', _) => .ok s'
+  | .raw _ _ => .error .invalid
+  | .migrate _ => .ok s
 
 /-- transactions are atomic: a failed operation leaves the state unchanged -/
 def step' (s : State) (op : Op) : State :=
@@ -375,5 +385,17 @@ def bankView (b : Bank) : List ((Addr × Denom) × Nat) :=
   let keys := (b.map (·.1)).eraseDups
   let es := (keys.map (fun k => (k, bal b k.1 k.2))).filter (fun e => e.2 != 0)
   es.foldr insertKey []
+
+/-- what a list of payments adds to each account other than `self`, per denom: one entry per (recipient, denom),
+sorted — the order and the grouping of the messages are not part of the property -/
+def addPaid (e : (Addr × Denom) × Nat) : List ((Addr × Denom) × Nat) → List ((Addr × Denom) × Nat)
+  | [] => [e]
+  | x :: r =>
+    if x.1 = e.1 then (x.1, x.2 + e.2) :: r
+    else if e.1.1 < x.1.1 || (e.1.1 == x.1.1 && e.1.2 < x.1.2) then e :: x :: r
+    else x :: addPaid e r
+
+def paidView (self : Addr) (msgs : List Pay) : List ((Addr × Denom) × Nat) :=
+  (msgs.filter (fun p => p.to != self && p.amount != 0)).foldl (fun acc p => addPaid ((p.to, p.denom), p.amount) acc) []
 
 end LP.Splits
